@@ -9,6 +9,7 @@ pub mod c06;
 pub mod c07;
 pub mod c08;
 pub mod c09;
+pub mod c10;
 pub mod c11;
 pub mod c12;
 pub mod c19;
@@ -23,6 +24,7 @@ pub fn all() -> Vec<Box<dyn Check>> {
 		Box::new(c07::C07),
 		Box::new(c08::C08),
 		Box::new(c09::C09),
+		Box::new(c10::C10),
 		Box::new(c11::C11),
 		Box::new(c12::C12),
 		Box::new(c19::C19),
